@@ -4,6 +4,8 @@
 set -u
 cd "$(dirname "$0")"
 export GOFLAGS=-mod=mod GOPROXY=off GOSUMDB=off GOTOOLCHAIN=local GONOSUMDB='*' GONOSUMCHECK=1
+# the analyser is allocation-heavy and gains nothing from many threads: fewer threads and a lazier collector halve its CPU time
+export GOGC=${GOGC:-400} GOMAXPROCS=${GOMAXPROCS:-4}
 unset GOWORK
 if [ ! -x bin/otrcheck ] || [ -n "$(find checker -newer bin/otrcheck -name '*.go' 2>/dev/null | head -1)" ]; then
   mkdir -p bin
